@@ -85,7 +85,12 @@ impl Client {
             match &data_map_level {
                 DataMapLevel::First(_) => break Ok(data),
                 DataMapLevel::Additional(_) => {
-                    data_map_level = rmp_serde::from_slice(&data).map_err(|err| {
+                    // an additional level holds the serialised chunk that wraps the previous level's data map
+                    let chunk: Chunk = rmp_serde::from_slice(&data).map_err(|err| {
+                        error!("Error deserializing data map chunk: {err:?}");
+                        GetError::InvalidDataMap(err)
+                    })?;
+                    data_map_level = rmp_serde::from_slice(chunk.value()).map_err(|err| {
                         error!("Error deserializing data map: {err:?}");
                         GetError::InvalidDataMap(err)
                     })?;
